@@ -20,7 +20,10 @@ OnCall(s, e, i) ==
       \* a call during which the io.Writer itself failed (fault-injection histories): when the writer took nothing of it, no counter value
       \* may have been consumed (the packets were withheld); when it took a part, the counters on the wire are whatever that part carried -
       \* tracking starts afresh
-      wf == Get(e, "wfail", FALSE)
+      \* - except when the failing Write took everything it was given and the call left whole packets only (it merely reported an error):
+      \* the wire then carries exactly the packets the Muxer emitted, the counters go on as usual and a value consumed by a packet that
+      \* was never emitted (the PMT behind a PAT whose write "failed") shows as a gap
+      wf == Get(e, "wfail", FALSE) /\ ~(Get(e, "wfull", FALSE) /\ e.part = 0)
       s2 == [s1 EXCEPT !.skip = wf, !.last = IF wf /\ e.delta > 0 THEN EmptyFn ELSE s1.last]
   IN IF e.op = "remove" /\ e.err = "nil" THEN [s2 EXCEPT !.last = DelFn(s2.last, e.pid)] ELSE s2
 
